@@ -56,6 +56,11 @@ func nilImplies(v, target ssa.Value, depth int) bool {
 	if v == target || origin(v) == target {
 		return true
 	}
+	if ld, isLoad := v.(*ssa.UnOp); isLoad && ld.Op == token.MUL {
+		// a variable go/ssa keeps in memory (named result captured by a deferred closure): the
+		// same reasoning over its reaching stores instead of phi edges (ip_g8.go)
+		return g8NilImpliesLoad(ld, target, depth)
+	}
 	ph, ok := v.(*ssa.Phi)
 	if !ok || depth > 4 {
 		return false
@@ -268,16 +273,8 @@ func checkC11(c *Ctx, r *Report) {
 		opens := callsTo(fn, false, "mailbox.OpenMessage")
 		good := len(opens) > 0
 		for _, op := range opens {
-			skip := false
-			for _, cd := range condsAt(op.Block()) {
-				b, ok := cd.V.(*ssa.BinOp)
-				if !ok || b.Op != token.EQL || cd.Truth {
-					continue
-				}
-				if k, isC := constInt(b.Y); isC && k == '.' && strings.Contains(pathOf(b.X), ".Name(") && strings.HasSuffix(pathOf(b.X), "[0]") {
-					skip = true
-				}
-			}
+			// read through same-package predicates; the test must be on the entry that is opened (ip_g8.go)
+			skip := g8DotFilesSkipped(c, pkg, op)
 			if !skip {
 				good = false
 			}
@@ -298,7 +295,7 @@ func tempRule(c *Ctx, r *Report, fn *ssa.Function, ci ssa.CallInstruction, pathA
 	name := callName(ci.Common())
 	if name == "os.CreateTemp" || name == "io/ioutil.TempFile" {
 		pat = ci.Common().Args[1]
-	} else if call, ok := pathArg.(*ssa.Call); ok && (callName(&call.Call) == "path/filepath.Join" || callName(&call.Call) == "path.Join") {
+	} else if call, ok := origin(pathArg).(*ssa.Call); ok && (callName(&call.Call) == "path/filepath.Join" || callName(&call.Call) == "path.Join") {
 		// last element of the variadic join
 		if sl, ok := call.Call.Args[0].(*ssa.Slice); ok {
 			if al, ok := sl.X.(*ssa.Alloc); ok {
@@ -894,12 +891,9 @@ func checkC12(c *Ctx, r *Report) {
 
 	// recognised confinement checks: predicates (module functions string->bool) whose true result
 	// implies the absence of path separators
-	confining := map[*ssa.Function]bool{}
-	for _, fn := range c.SrcFuncs(pkg) {
-		if isConfiningPredicate(fn, needBackslash) {
-			confining[fn] = true
-		}
-	}
+	// (summaries per result value: `true => no separator` and/or `false => no separator`; the test
+	// may be a library call, a scan loop over the bytes, or another such predicate - ip_g8.go)
+	confining := g8ConfiningPredicates(c, pkg, needBackslash)
 	var predNames []string
 	for fn := range confining {
 		predNames = append(predNames, fnName(fn))
@@ -918,7 +912,7 @@ func checkC12(c *Ctx, r *Report) {
 				continue
 			}
 			name := callName(&call.Call)
-			if callee := call.Call.StaticCallee(); callee != nil && confining[callee] && cd.Truth && len(call.Call.Args) == 1 && pathOf(call.Call.Args[0]) == vp {
+			if callee := call.Call.StaticCallee(); callee != nil && confining[callee][g8b2i(cd.Truth)] && len(call.Call.Args) == 1 && pathOf(call.Call.Args[0]) == vp {
 				return true
 			}
 			if (name == "path/filepath.IsLocal" || name == "io/fs.ValidPath") && cd.Truth && pathOf(call.Call.Args[0]) == vp {
@@ -1237,72 +1231,4 @@ func sepCheck(call *ssa.Call, needBackslash bool) bool {
 		return false
 	}
 	return true
-}
-
-// isConfiningPredicate: fn(string) bool whose true result requires a separator check on its
-// parameter to have failed (no separator present).
-func isConfiningPredicate(fn *ssa.Function, needBackslash bool) bool {
-	if len(fn.Params) != 1 || fn.Signature.Results().Len() != 1 {
-		return false
-	}
-	if b, ok := fn.Signature.Results().At(0).Type().Underlying().(*types.Basic); !ok || b.Kind() != types.Bool {
-		return false
-	}
-	param := fn.Params[0]
-	// every way of returning true passes the false edge of a separator check on the parameter
-	okAll := true
-	n := 0
-	for _, ret := range returnsOf(fn) {
-		v := resOf(ret, 0)
-		if b, isC := constBool(v); isC && !b {
-			continue
-		}
-		n++
-		if !trueRequiresNoSep(v, ret.Block(), param, needBackslash, 0) {
-			okAll = false
-		}
-	}
-	return okAll && n > 0
-}
-
-// trueRequiresNoSep: whenever boolean v (evaluated at the end of block at) is true, a separator
-// check on param has returned false.
-func trueRequiresNoSep(v ssa.Value, at *ssa.BasicBlock, param *ssa.Parameter, needBackslash bool, depth int) bool {
-	if depth > 5 {
-		return false
-	}
-	established := func(conds []Cond) bool {
-		for _, cd := range conds {
-			if call, ok := cd.V.(*ssa.Call); ok && !cd.Truth && sepCheck(call, needBackslash) && call.Call.Args[0] == ssa.Value(param) {
-				return true
-			}
-		}
-		return false
-	}
-	if established(condsAt(at)) {
-		return true
-	}
-	switch x := v.(type) {
-	case *ssa.UnOp:
-		if x.Op == token.NOT {
-			if call, ok := x.X.(*ssa.Call); ok && sepCheck(call, needBackslash) && call.Call.Args[0] == ssa.Value(param) {
-				return true
-			}
-		}
-	case *ssa.Phi:
-		for i, e := range x.Edges {
-			if b, isC := constBool(e); isC && !b {
-				continue
-			}
-			pred := x.Block().Preds[i]
-			if established(append(condsAt(pred), edgeCond(pred, x.Block())...)) {
-				continue
-			}
-			if !trueRequiresNoSep(e, pred, param, needBackslash, depth+1) {
-				return false
-			}
-		}
-		return true
-	}
-	return false
 }
